@@ -1389,6 +1389,60 @@ func (u *Unit) execRange(n *ast.RangeStmt, st *State, f Flow) {
 		f.next(exit)
 	case *types.Map:
 		u.execRangeMap(n, ut, x, lb, st, f)
+	case *types.Basic:
+		if x.Sort != sStr {
+			u.g.errorf("%s: %s: range over %v unsupported", u.name, u.g.P.pos(n), xt)
+			return
+		}
+		// range over a string: the hidden byte offset `rangeidx` starts at 0 and advances by the
+		// width Go's decoder assigns to the rune starting there (uninterpreted str_runewidth with
+		// 1 <= width and offset+width <= len); the value is str_runeat(s, offset).
+		g := u.g
+		g.Pre.add("(declare-fun str_runeat (Str Int) (_ BitVec 32))")
+		g.Pre.add("(declare-fun str_runewidth (Str Int) Int)")
+		g.Pre.add("(assert (forall ((s Str) (i Int)) (! (=> (and (<= 0 i) (< i (str_len s))) (and (<= 1 (str_runewidth s i)) (<= (+ i (str_runewidth s i)) (str_len s)))) :pattern ((str_runewidth s i)))))")
+		idxName := "rangeidx"
+		st.named[idxName] = Term{S: "0", Sort: sInt, T: types.Typ[types.Int], Signed: true}
+		u.checkInvariants(lb, st, pos, "init", nil)
+		head := st.clone()
+		he := u.newEv(head)
+		u.havocLoop(he, n)
+		idx := g.freshName("rangeidx")
+		head.declare(idx, sInt)
+		head.named[idxName] = Term{S: idx, Sort: sInt, T: types.Typ[types.Int], Signed: true}
+		head.assume(app("<=", "0", idx))
+		head.assume(app("<=", idx, app("str_len", x.S)))
+		u.assumeInvariants(lb, head, pos)
+		u.assumeLoopFrame(head)
+		body := u.fork(head, app("<", idx, app("str_len", x.S)))
+		ee := u.newEv(body)
+		if id, ok := n.Key.(*ast.Ident); ok && id.Name != "_" {
+			kv := ee.fromInt(idx)
+			if n.Tok == token.DEFINE {
+				body.vars[g.P.Info.Defs[id]] = kv
+			} else {
+				ee.store(ee.lvalue(id), kv, n)
+			}
+		}
+		if n.Value != nil {
+			if id, ok := n.Value.(*ast.Ident); ok && id.Name != "_" {
+				rt := types.Typ[types.Rune]
+				v := Term{S: app("str_runeat", x.S, idx), Sort: "(_ BitVec 32)", T: rt, Signed: true}
+				if n.Tok == token.DEFINE {
+					body.vars[g.P.Info.Defs[id]] = v
+				} else {
+					ee.store(ee.lvalue(id), v, n)
+				}
+			}
+		}
+		endIter := func(s *State) {
+			s.named[idxName] = Term{S: app("+", idx, app("str_runewidth", x.S, idx)), Sort: sInt, T: types.Typ[types.Int], Signed: true}
+			u.checkInvariants(lb, s, pos, "preserve", head)
+			u.checkLoopFrame(lb, s)
+		}
+		bf := Flow{next: endIter, cont: endIter, brk: f.next, ret: f.ret}
+		u.exec(n.Body, body, bf)
+		f.next(u.fork(head, smtEq(idx, app("str_len", x.S))))
 	default:
 		u.g.errorf("%s: %s: range over %v unsupported", u.name, u.g.P.pos(n), xt)
 	}
